@@ -149,17 +149,23 @@ func (s *backendStorageStatic) RemoveBackendsForHost(host string) {
 }
 
 func (s *backendStorageStatic) UpsertHost(host string, backends []*Backend) {
-	for existingIndex, existingBackend := range s.backends[host] {
+	// Collect the entries to keep in a new slice: removing from s.backends[host]
+	// while ranging over it shifts the entries under the loop and lets the index
+	// run past the shortened slice.
+	existingBackends := s.backends[host]
+	keptBackends := make([]*Backend, 0, len(existingBackends)+len(backends))
+	for _, existingBackend := range existingBackends {
 		found := false
 		index := 0
 		for _, newBackend := range backends {
 			if reflect.DeepEqual(existingBackend, newBackend) { // otherwise we could manually compare the struct members here
 				found = true
+				keptBackends = append(keptBackends, existingBackend)
 				backends = append(backends[:index], backends[index+1:]...)
 				break
 			} else if newBackend.id == existingBackend.id {
 				found = true
-				s.backends[host][existingIndex] = newBackend
+				keptBackends = append(keptBackends, newBackend)
 				backends = append(backends[:index], backends[index+1:]...)
 				log.Printf("Backend %s updated for %s", newBackend.id, newBackend.url)
 				updateBackendStats(newBackend)
@@ -168,15 +174,13 @@ func (s *backendStorageStatic) UpsertHost(host string, backends []*Backend) {
 			index++
 		}
 		if !found {
-			removed := s.backends[host][existingIndex]
-			log.Printf("Backend %s removed for %s", removed.id, removed.url)
-			s.backends[host] = append(s.backends[host][:existingIndex], s.backends[host][existingIndex+1:]...)
-			deleteBackendStats(removed)
+			log.Printf("Backend %s removed for %s", existingBackend.id, existingBackend.url)
+			deleteBackendStats(existingBackend)
 			statsBackendsCurrent.Dec()
 		}
 	}
 
-	s.backends[host] = append(s.backends[host], backends...)
+	s.backends[host] = append(keptBackends, backends...)
 	for _, added := range backends {
 		log.Printf("Backend %s added for %s", added.id, added.url)
 		updateBackendStats(added)
